@@ -177,7 +177,7 @@ Proof. intros Ht Hne. unfold marginalize. destruct (remain_check _ _ rem); [disc
 Theorem conditionalize_normalised tol d idxs vals d' : 0 <= tol -> tol <> 0 ->
   conditionalize F tol d idxs vals = MOk d' -> d_zero F d' = false -> normalised tol d'.
 Proof. intros Ht Hne. unfold conditionalize.
-  destruct (negb _); [discriminate|]. destruct (_ || _); [discriminate|]. destruct (existsb _ _); [discriminate|].
+  destruct (cond_precheck _ _ _); [discriminate|].
   cbv zeta. destruct (match select _ _ with [] => true | _ => false end); [discriminate|].
   destruct (_ && _); [discriminate|].
   intros H Hz. destruct (construct_normalised F tol tol _ _ d' Ht Hne H Hz) as [A [B _]]. split; assumption. Qed.
